@@ -2219,6 +2219,11 @@ func ConcreteNextHopProto(e *aft.Afts_NextHop) (*aftpb.Afts_NextHopKey, error) {
 	}, nhproto); err != nil {
 		return nil, fmt.Errorf("cannot marshal next-hop index %d, %v", e.GetIndex(), err)
 	}
+	// protomap.ProtoFromPaths does not map boolean leaves, so populate them
+	// explicitly rather than silently dropping them.
+	if e.PopTopLabel != nil {
+		nhproto.PopTopLabel = &wpb.BoolValue{Value: *e.PopTopLabel}
+	}
 	return &aftpb.Afts_NextHopKey{
 		Index:   *e.Index,
 		NextHop: nhproto,
